@@ -125,13 +125,16 @@ Module GrpP.
       end
     end.
 
+  (* lia on the purely linear part of the context first: every implication in the context doubles lia's case analysis *)
+  Ltac lia0 := solve [ repeat match goal with H : _ -> _ |- _ => clear H end; lia ].
+  Ltac lia2 := first [ lia0 | lia ].
   Ltac go_fin :=
     match goal with I : Inv ?s |- _ =>
       pose_specs s; destr_inv I;
       match goal with Hpn : b2n (panic _) = 0 |- _ =>
         let Hp := fresh "Hp" in pose proof (b2n_0 _ Hpn) as Hp; try rewrite Hp in * end;
       unf; rew_eqs s; cbn in *;
-      (constructor; unf; cbn; rew_goal s; cbn; try lia; bool_goal; try lia)
+      (constructor; unf; cbn; rew_goal s; cbn; try lia2; bool_goal; try lia2)
     end.
   Ltac go s H I :=
     scbn H; unfold tick, toil, he_check, he_send, sync_checked in H;
